@@ -668,6 +668,43 @@ def _one_run(case, k, mode):
                 pulled=pulled, ended=ended, built=built, prints=len(prints), k=k, mode=mode)
 
 
+def _inter_run(case):
+    """Two live iterations of ONE Stream object: start an iteration, take up to 2 elements, run a complete
+    second iteration of the same Stream, then finish the first.  Every `__iter__` starts fresh operator
+    state, so both must deliver what a lone iteration delivers (seeded change C03-9: an accumulator that
+    rewinds itself instead of being created afresh is right one-after-another and wrong interleaved)."""
+    vals = [to_py(j) for j in case['vals']]
+    if case.get('arraylike'):
+        vals = [Vec(v) if type(v) is list else v for v in vals]
+    err = tuple(case['err']) if case['err'] is not None else None
+    src = Source(vals, err)
+    stream = build(case['ops'], src, [], kw=bool(case.get('kw')))
+
+    def fmt(out, end):
+        return ['[' + ','.join(show(v) for v in out) + ']', end]
+
+    def pull(it, out, limit):
+        try:
+            while limit is None or len(out) < limit:
+                out.append(next(it))
+            return 'more'
+        except StopIteration:
+            return 'done'
+        except Exception as e:   # noqa
+            t, a = canon_exc(e)
+            return f'E{t}:{a}' if t != 'other' else '?exc:' + a.replace(' ', '_')
+
+    it1 = iter(stream)
+    out1 = []
+    end1 = pull(it1, out1, 2)
+    out2 = []
+    end2 = pull(iter(stream), out2, None)
+    if end1 == 'more':
+        end1 = pull(it1, out1, None)
+    del it1
+    return dict(first=fmt(out1, end1), middle=fmt(out2, end2))
+
+
 def run_case(case):
     box = {}
 
@@ -680,6 +717,11 @@ def run_case(case):
                 runs.append(_one_run(case, k, case['consume']))
             finally:
                 _S.random = random
+        if case.get('again') and not any(op[0] in ('shuffle', 'buffer', 'parmap') for op in case['ops']):
+            # only pipelines of single-threaded operators: `Buffer` / `Parmapper` keep the state of the running
+            # iteration on the operator object itself (two simultaneous iterations of one such Stream are outside
+            # what C03 quantifies over; see DESIGN 9.5, round 6)
+            box['inter'] = _inter_run(case)
         gc.collect()
         box['runs'] = runs
 
@@ -704,6 +746,18 @@ def run_case(case):
     exp, eerr = ref(case['ops'], vals, err)
     sl = slack(case['ops'])
     first_ok = True
+    inter = box.get('inter')
+    if inter is not None:
+        res['inter'] = inter
+        r0 = runs[0]
+        wend0 = 'done' if eerr is None else show_err(eerr)
+        if r0['k'] is None and r0['vals'] is not None and r0['end'] == wend0 and \
+                r0['vals'] == '[' + ','.join(show(v) for v in exp) + ']':
+            for which in ('first', 'middle'):
+                if inter[which] != [r0['vals'], r0['end']]:
+                    mon.append(dict(prop='C03', rule='interleaved-iterations',
+                                    detail=f'two live iterations of one Stream, the {which} one: got {inter[which][0]} '
+                                           f'{inter[which][1]}; a lone iteration of the same Stream gave {r0["vals"]} {r0["end"]}'))
     for r in runs:
         k = r['k']
         what = 'full' if k is None else ('again' if k == 'again' else f'take {k}')
